@@ -145,6 +145,9 @@ func (srv *Server) handleChannel(ctx context.Context, c *ServerChannel) {
 
 	if err != nil {
 		log.Printf("server: establish: %v\n", err)
+		// The session will not be served, so release the connection
+		// instead of leaving the client waiting on it.
+		_ = c.Close()
 		return
 	}
 
